@@ -338,20 +338,607 @@ fn helpers_mode(a: &Args) {
     stat("bc_get_random_zero_draws", ZERO_DRAWS.with(|c| c.get()));
 }
 
+
+// ---------------------------------------------------------------------------------------------
+// rvb mode
+// ---------------------------------------------------------------------------------------------
+
+/// RNG handle shared between the harness and the sampler(s): lets the harness script the words of
+/// one update and read the log while the sampler owns "its" RNG.
+#[derive(Clone)]
+struct Shared(Rc<RefCell<RecRng>>);
+impl RngCore for Shared {
+    fn next_u32(&mut self) -> u32 {
+        self.0.borrow_mut().next_u32()
+    }
+    fn next_u64(&mut self) -> u64 {
+        self.0.borrow_mut().next_u64()
+    }
+    fn fill_bytes(&mut self, dest: &mut [u8]) {
+        self.0.borrow_mut().fill_bytes(dest)
+    }
+    fn try_fill_bytes(&mut self, dest: &mut [u8]) -> Result<(), rand::Error> {
+        self.0.borrow_mut().try_fill_bytes(dest)
+    }
+}
+impl Shared {
+    fn script(&self, words: &[u64]) {
+        let mut r = self.0.borrow_mut();
+        r.script = words.to_vec();
+        r.pos = 0;
+        r.log.clear();
+    }
+    fn free(&self) {
+        let mut r = self.0.borrow_mut();
+        r.script.clear();
+        r.pos = 0;
+        r.log.clear();
+    }
+    fn log(&self) -> Vec<u64> {
+        self.0.borrow().log.clone()
+    }
+}
+
+type G = DefaultQmcIsingGraph<Shared>;
+
+#[derive(Clone, Debug)]
+struct Model {
+    name: &'static str,
+    nvars: usize,
+    edges: Vec<((usize, usize), f64)>,
+    gamma: f64,
+    h: f64,
+    beta: f64,
+}
+
+#[derive(Clone, Debug, PartialEq)]
+struct SOp {
+    bond: usize,
+    vars: Vec<usize>,
+    ins: Vec<bool>,
+    outs: Vec<bool>,
+    diag: bool,
+    constant: bool,
+}
+
+#[derive(Clone, Debug, PartialEq)]
+struct Snap {
+    state: Vec<bool>,
+    slots: Vec<Option<SOp>>,
+    text: String,
+}
+
+fn snap(g: &G) -> Snap {
+    let m = g.get_manager_ref();
+    let slots = (0..m.get_cutoff())
+        .map(|p| {
+            m.get_pth(p).map(|op| SOp {
+                bond: op.get_bond(),
+                vars: op.get_vars().to_vec(),
+                ins: op.get_inputs().to_vec(),
+                outs: op.get_outputs().to_vec(),
+                diag: op.is_diagonal(),
+                constant: op.is_constant(),
+            })
+        })
+        .collect();
+    Snap { state: g.clone_state(), slots, text: show_slots(m) }
+}
+
+fn weight_of(g: &G, op: &SOp) -> f64 {
+    let info = g.make_haminfo();
+    G::hamiltonian(&info, &op.vars, op.bond, &op.ins, &op.outs)
+}
+
+fn show_edges(m: &Model) -> String {
+    m.edges.iter().map(|((a, b), j)| format!("{}:{}:{}", a, b, rat(*j))).collect::<Vec<_>>().join(",")
+}
+
+/// Region of a trace, expanded to all variables.
+#[derive(Clone, Debug, PartialEq)]
+struct Reg {
+    subvars: Vec<usize>,
+    start: Vec<bool>,
+    toggles: Vec<usize>,
+}
+fn reg_of(t: &RvbTrace) -> Reg {
+    Reg { subvars: t.subvars.clone(), start: t.cluster_starting_state.clone(), toggles: t.cluster_toggle_ps.clone() }
+}
+
+/// Model-independent evaluation of one observed update on the real before/after pair:
+/// dense slot-by-slot sweep with the membership mask of the traced region.
+struct Dense {
+    k: usize,            // rotatable operators (on a boundary bond)
+    q: f64,              // Π over rotatable ops of W_after(p) / W_before(p)
+    r: f64,              // Π over enclosed ops of w(flipped) / w
+    fwd_redraw: f64,     // Π w_after(new bond) / W_after(p)
+    bwd_redraw: f64,     // Π w_before(old bond) / W_before(p)
+    outside_same: bool,  // operators not touched by the region are identical
+    bad: Option<String>,
+    /// number of toggles processed when the running product (in the order the code multiplies:
+    /// Ising factor at an enclosed op, pending bond factors at an off-diagonal op or a toggle)
+    /// first fell below f64::EPSILON; None = never
+    break_after_toggles: Option<usize>,
+}
+
+fn dense(g: &G, m: &Model, before: &Snap, after: &Snap, reg: &Reg) -> Dense {
+    let info = g.make_haminfo();
+    let mut mask = vec![false; m.nvars];
+    for (i, v) in reg.subvars.iter().enumerate() {
+        mask[*v] = reg.start[i];
+    }
+    let mut st = before.state.clone();
+    let mut d = Dense { k: 0, q: 1.0, r: 1.0, fwd_redraw: 1.0, bwd_redraw: 1.0, outside_same: true, bad: None, break_after_toggles: None };
+    let mut ti = 0;
+    let mut running = 1.0f64;
+    let mut pending = 1.0f64;
+    let w2 = |b: usize, sa: bool, sb: bool| -> f64 {
+        let (va, vb) = m.edges[b].0;
+        G::hamiltonian(&info, &[va, vb], b, &[sa, sb], &[sa, sb])
+    };
+    for p in 0..before.slots.len() {
+        let (ob, oa) = (&before.slots[p], after.slots.get(p).cloned().flatten());
+        let ob = match ob {
+            Some(o) => o,
+            None => {
+                if oa.is_some() {
+                    d.bad = Some(format!("slot {} was empty and is occupied afterwards", p));
+                }
+                continue;
+            }
+        };
+        let is_tog = ti < reg.toggles.len() && reg.toggles[ti] == p;
+        let boundary: Vec<usize> = (0..m.edges.len()).filter(|b| mask[m.edges[*b].0 .0] != mask[m.edges[*b].0 .1]).collect();
+        if ob.bond < m.edges.len() && boundary.contains(&ob.bond) {
+            // rotatable operator
+            d.k += 1;
+            let mut wb = 0.0;
+            let mut wa = 0.0;
+            for b in &boundary {
+                let (u, v) = m.edges[*b].0;
+                wb += w2(*b, st[u], st[v]);
+                wa += w2(*b, st[u] != mask[u], st[v] != mask[v]);
+            }
+            d.q *= wa / wb;
+            pending *= wa / wb;
+            let (u, v) = m.edges[ob.bond].0;
+            d.bwd_redraw *= w2(ob.bond, st[u], st[v]) / wb;
+            match &oa {
+                Some(oa) if oa.bond < m.edges.len() && boundary.contains(&oa.bond) => {
+                    let (u, v) = m.edges[oa.bond].0;
+                    d.fwd_redraw *= w2(oa.bond, st[u] != mask[u], st[v] != mask[v]) / wa;
+                }
+                _ => {
+                    if after != before {
+                        d.bad = Some(format!("rotatable op at slot {} not re-bonded to a boundary bond", p));
+                    }
+                }
+            }
+        } else {
+            let any_in = ob.vars.iter().any(|v| mask[*v]);
+            let all_in = ob.vars.iter().all(|v| mask[*v]);
+            let nearby = ob.vars.iter().any(|v| reg.subvars.contains(v));
+            if all_in {
+                let fl = SOp { ins: ob.ins.iter().map(|b| !b).collect(), outs: ob.outs.iter().map(|b| !b).collect(), ..ob.clone() };
+                let f = weight_of(g, &fl) / weight_of(g, ob);
+                d.r *= f;
+                running *= f;
+                if running < f64::EPSILON && d.break_after_toggles.is_none() {
+                    d.break_after_toggles = Some(ti + is_tog as usize);
+                }
+            }
+            if nearby && (!ob.diag || is_tog) {
+                running *= pending;
+                pending = 1.0;
+                if running < f64::EPSILON && d.break_after_toggles.is_none() {
+                    d.break_after_toggles = Some(ti + is_tog as usize);
+                }
+            }
+            if !any_in && !is_tog && oa.as_ref() != Some(ob) {
+                d.outside_same = false;
+            }
+            if is_tog {
+                if ob.vars.len() != 1 || !ob.constant {
+                    d.bad = Some(format!("toggle position {} is not a one-variable constant operator", p));
+                } else {
+                    let v = ob.vars[0];
+                    mask[v] = !mask[v];
+                }
+                ti += 1;
+            }
+        }
+        for (i, v) in ob.vars.iter().enumerate() {
+            st[*v] = ob.outs[i];
+        }
+    }
+    if ti != reg.toggles.len() {
+        d.bad = Some("not all toggle positions carry operators".into());
+    }
+    d
+}
+
+/// positions of the constant operators per variable, in slot order (what `find_constants` collects)
+fn const_ps(before: &Snap, nvars: usize) -> Vec<Vec<usize>> {
+    let mut v = vec![vec![]; nvars];
+    for (p, o) in before.slots.iter().enumerate() {
+        if let Some(o) = o {
+            if o.constant {
+                for x in &o.vars {
+                    v[*x].push(p);
+                }
+            }
+        }
+    }
+    v
+}
+
+fn mask0_of(reg: &Reg, nvars: usize) -> Vec<bool> {
+    let mut mask = vec![false; nvars];
+    for (i, v) in reg.subvars.iter().enumerate() {
+        mask[*v] = reg.start[i];
+    }
+    mask
+}
+
+/// membership just after slot p0
+fn mask_after(before: &Snap, reg: &Reg, nvars: usize, p0: usize) -> Vec<bool> {
+    let mut mask = mask0_of(reg, nvars);
+    for p in &reg.toggles {
+        if *p <= p0 {
+            if let Some(Some(o)) = before.slots.get(*p) {
+                mask[o.vars[0]] = !mask[o.vars[0]];
+            }
+        }
+    }
+    mask
+}
+
+/// number of (variable, interval between constant operators) cells in the region
+fn cell_count(before: &Snap, reg: &Reg, nvars: usize) -> usize {
+    let cps = const_ps(before, nvars);
+    let m0 = mask0_of(reg, nvars);
+    (0..nvars)
+        .map(|v| if cps[v].is_empty() { m0[v] as usize } else { cps[v].iter().filter(|p| mask_after(before, reg, nvars, **p)[v]).count() })
+        .sum()
+}
+
+/// rand 0.8 `gen_range(0..n)` replayed on logged words: (value, words consumed)
+fn replay_gen_range(words: &[u64], n: usize) -> Option<(usize, usize)> {
+    let n = n as u64;
+    let zone = (n << n.leading_zeros()).wrapping_sub(1);
+    for (i, v) in words.iter().enumerate() {
+        let m = (*v as u128) * (n as u128);
+        if (m as u64) <= zone {
+            return Some(((m >> 64) as usize, i + 1));
+        }
+    }
+    None
+}
+
+/// does the region contain the starting cell selected by the first draw(s), and is its number of
+/// cells at most the size drawn next (`contiguous_bits + 1`)?
+fn growth_plausible(before: &Snap, reg: &Reg, nvars: usize, log: &[u64]) -> Result<(), String> {
+    let cps = const_ps(before, nvars);
+    let flat: Vec<(usize, usize)> = (0..nvars).flat_map(|v| cps[v].iter().map(move |p| (v, *p))).collect();
+    let idle: Vec<usize> = (0..nvars).filter(|v| cps[*v].is_empty()).collect();
+    let (choice, used) = replay_gen_range(log, flat.len() + idle.len()).ok_or("start draw not found")?;
+    let inside = if choice < flat.len() {
+        let (v, p0) = flat[choice];
+        mask_after(before, reg, nvars, p0)[v]
+    } else {
+        mask0_of(reg, nvars)[idle[choice - flat.len()]]
+    };
+    if !inside {
+        return Err(format!("the starting cell (choice {}) is not in the proposed region", choice));
+    }
+    let size = log.get(used).map(|w| w.trailing_ones() as usize + 1).ok_or("size draw missing")?;
+    let cells = cell_count(before, reg, nvars);
+    if cells == 0 || cells > size {
+        return Err(format!("region has {} cells but the drawn cluster size is {}", cells, size));
+    }
+    Ok(())
+}
+
+fn close(a: f64, b: f64) -> bool {
+    (a - b).abs() <= 1e-9 * a.abs().max(b.abs()).max(1e-300) || (a.abs() < 1e-15 && b.abs() < 1e-15)
+}
+
+/// One proposed update on `g`; emits the case. Returns false if the sampler is unusable (panic).
+fn observe(g: &mut G, rng: &Shared, m: &Model, stats: &mut std::collections::BTreeMap<String, u64>) -> bool {
+    let before = snap(g);
+    rng.free();
+    let _ = take_trace();
+    let res = catch(std::panic::AssertUnwindSafe(|| g.single_rvb_sweep(Some(1))));
+    let log = rng.log();
+    let head = format!(
+        "rvb {} {} {} {} {} {}",
+        m.nvars,
+        show_edges(m),
+        rat(m.gamma),
+        rat(m.h),
+        bits(&before.state),
+        before.text
+    );
+    let tr = take_trace();
+    if let Err(msg) = res {
+        emit(true, &format!("{} - - - 0 {} - L0: -", head, list(&log)), "PANIC", Some(Err(format!("single_rvb_sweep panicked: {}", msg))));
+        return false;
+    }
+    let (succ, _) = res.unwrap();
+    let t = &tr[0];
+    let after = snap(g);
+    // The hook records `cluster_starting_state` *after* calculate_flip_prob has swept it; when the
+    // sweep stopped early (`mult < EPSILON => break`) that is the membership at the break, not at
+    // p = 0. Reconstruct: undo the first i toggles and keep the i for which the running product
+    // (evaluated on the real weights) first drops below EPSILON after exactly i toggles.
+    let mut reg = reg_of(t);
+    if t.p_to_flip < f64::EPSILON {
+        let traced = reg.clone();
+        let mut found = None;
+        for i in 0..=traced.toggles.len() {
+            let mut cand = traced.clone();
+            for p in &traced.toggles[..i] {
+                if let Some(Some(o)) = before.slots.get(*p) {
+                    if let Some(sv) = cand.subvars.iter().position(|v| *v == o.vars[0]) {
+                        cand.start[sv] = !cand.start[sv];
+                    }
+                }
+            }
+            let d = dense(g, m, &before, &before, &cand);
+            if d.bad.is_none() && d.break_after_toggles == Some(i) && growth_plausible(&before, &cand, m.nvars, &log).is_ok() {
+                found = Some((i, cand));
+                break;
+            }
+        }
+        if let Some((i, cand)) = found {
+            if i > 0 {
+                *stats.entry("rvb_region_reconstructed_after_early_break".into()).or_insert(0) += 1;
+            }
+            reg = cand;
+        }
+    }
+    let mut fails: Vec<String> = vec![];
+    if tr.len() != 1 {
+        fails.push(format!("{} traces for one update", tr.len()));
+    }
+    if (succ == 1) != t.accepted {
+        fails.push("returned success count disagrees with the trace".into());
+    }
+    // --- oracle, model independent
+    match propagate_check(g.get_manager_ref(), &after.state) {
+        Ok(s) if s == after.state => {}
+        Ok(_) => fails.push("propagated state after the update is not periodic".into()),
+        Err(p) => fails.push(format!("operator at slot {} does not meet its inputs after the update", p)),
+    }
+    for (p, o) in after.slots.iter().enumerate() {
+        if let Some(o) = o {
+            if !(weight_of(g, o) > 0.0) {
+                fails.push(format!("operator with weight 0 stored at slot {} (bond {})", p, o.bond));
+            }
+        }
+    }
+    let n_b = before.slots.iter().filter(|o| o.is_some()).count();
+    let n_a = after.slots.iter().filter(|o| o.is_some()).count();
+    if n_b != n_a || n_a != g.get_n() {
+        fails.push(format!("operator count changed {} -> {} (get_n {})", n_b, n_a, g.get_n()));
+    }
+    if !t.accepted && after != before {
+        fails.push("rejected proposal changed the configuration".into());
+    }
+    let d = dense(g, m, &before, &after, &reg);
+    if let Some(b) = &d.bad {
+        fails.push(b.clone());
+    }
+    if let Err(e) = growth_plausible(&before, &reg, m.nvars, &log) {
+        fails.push(e);
+    }
+    if !d.outside_same {
+        fails.push("an operator outside the traced region changed".into());
+    }
+    // acceptance formula on the real weights: p = Π W_aft/W_bef · Π ising ratios
+    let expect_p = d.q * d.r;
+    if !close(t.p_to_flip, expect_p) {
+        fails.push(format!("p_to_flip {} but Π(W_aft/W_bef)·Π(ising) on the real weights = {}", t.p_to_flip, expect_p));
+    }
+    // --- proposal symmetry and detailed balance on the real pair
+    let mut p2tok = "-".to_string();
+    if t.accepted {
+        let mut g2 = g.clone();
+        rng.script(&log);
+        let r2 = catch(std::panic::AssertUnwindSafe(|| g2.single_rvb_sweep(Some(1))));
+        rng.free();
+        let tr2 = take_trace();
+        match r2 {
+            Err(msg) => fails.push(format!("reverse proposal panicked: {}", msg)),
+            Ok(_) => {
+                let t2 = &tr2[0];
+                let r2 = reg_of(t2);
+                // (the traced starting state of the reverse proposal is only meaningful when its sweep ran to the end)
+                if r2.subvars != reg.subvars || r2.toggles != reg.toggles || (t2.p_to_flip >= f64::EPSILON && r2.start != reg.start) {
+                    fails.push(format!("same draws from the new configuration propose a different region: {:?} vs {:?}", reg_of(t2), reg));
+                }
+                p2tok = format!("~{:e}", t2.p_to_flip);
+                // weight ratio of the pair via the public Hamiltonian
+                let mut ratio = 1.0;
+                for (ob, oa) in before.slots.iter().zip(after.slots.iter()) {
+                    if let (Some(ob), Some(oa)) = (ob, oa) {
+                        if ob != oa {
+                            ratio *= weight_of(g, oa) / weight_of(g, ob);
+                        }
+                    }
+                }
+                let lhs = t.p_to_flip.min(1.0) * d.fwd_redraw;
+                let rhs = ratio * t2.p_to_flip.min(1.0) * d.bwd_redraw;
+                if !close(lhs, rhs) {
+                    fails.push(format!(
+                        "detailed balance violated on the pair: A·redraw = {} but (π'/π)·A'·redraw' = {} (p={}, p'={}, π'/π={})",
+                        lhs, rhs, t.p_to_flip, t2.p_to_flip, ratio
+                    ));
+                }
+                if t.p_to_flip > 0.0 && !close(t.p_to_flip * t2.p_to_flip, 1.0) {
+                    fails.push(format!("reverse multiplier {} is not the reciprocal of {}", t2.p_to_flip, t.p_to_flip));
+                }
+            }
+        }
+    }
+    let input = format!(
+        "{} {} {} {} {} {} {} {}",
+        head,
+        list(&reg.subvars),
+        bits(&reg.start),
+        list(&reg.toggles),
+        t.accepted as u8,
+        list(&log),
+        bits(&after.state),
+        after.text
+    );
+    let output = format!("~{:e} {} 1 1 {} {} 1 ok", t.p_to_flip, d.k, if t.accepted { "1" } else { "-" }, p2tok);
+    *stats.entry(format!("rvb_{}_{}", m.name, if t.accepted { "accepted" } else { "rejected" })).or_insert(0) += 1;
+    *stats.entry(format!("rvb_rotatable_{}", d.k.min(4))).or_insert(0) += 1;
+    *stats.entry(format!("rvb_toggles_{}", reg.toggles.len().min(6))).or_insert(0) += 1;
+    if t.accepted && after != before {
+        *stats.entry("rvb_accepted_changed".into()).or_insert(0) += 1;
+    }
+    emit(
+        t.accepted && after != before || (!t.accepted && t.p_to_flip > 0.0),
+        &input,
+        &output,
+        Some(if fails.is_empty() { Ok(()) } else { Err(fails.join("; ")) }),
+    );
+    true
+}
+
+fn models(g: &mut SplitMix64, thorough: bool) -> Vec<Model> {
+    let mut v = vec![];
+    let js = [0.5, 1.0, 2.0, 0.25, 1.5];
+    let gammas = [0.5, 1.0, 2.0];
+    let hs = [0.0, 0.0, 0.5, -1.0];
+    let betas = [0.5, 1.0, 2.0, 4.0];
+    let reps = if thorough { 6 } else { 1 };
+    for rep in 0..reps {
+        // frustrated triangle, equal couplings
+        v.push(Model { name: "triangle", nvars: 3, edges: vec![((0, 1), 1.0), ((1, 2), 1.0), ((0, 2), 1.0)], gamma: *g.pick(&gammas), h: 0.0, beta: *g.pick(&betas) });
+        // triangle, unequal |J|
+        v.push(Model { name: "triangle_unequal", nvars: 3, edges: vec![((0, 1), *g.pick(&js)), ((1, 2), *g.pick(&js)), ((0, 2), *g.pick(&js))], gamma: *g.pick(&gammas), h: *g.pick(&hs), beta: *g.pick(&betas) });
+        // ring with one flipped bond
+        let n = g.range(4, 6) as usize;
+        let mut e: Vec<((usize, usize), f64)> = (0..n).map(|i| ((i, (i + 1) % n), -1.0)).collect();
+        e[0].1 = 1.0;
+        if rep % 2 == 1 {
+            for x in e.iter_mut() {
+                x.1 *= *g.pick(&js);
+            }
+        }
+        v.push(Model { name: "ring_flipped", nvars: n, edges: e, gamma: *g.pick(&gammas), h: *g.pick(&hs), beta: *g.pick(&betas) });
+        // multi-edges
+        v.push(Model { name: "multi_edge", nvars: 3, edges: vec![((0, 1), 1.0), ((0, 1), -0.5), ((1, 2), *g.pick(&js)), ((0, 2), 1.0), ((1, 2), 0.5)], gamma: *g.pick(&gammas), h: *g.pick(&hs), beta: *g.pick(&betas) });
+        // two triangles sharing an edge, with a longitudinal field
+        v.push(Model { name: "bowtie_field", nvars: 4, edges: vec![((0, 1), 1.0), ((1, 2), 1.0), ((0, 2), 2.0), ((2, 3), 1.0), ((1, 3), 0.5)], gamma: *g.pick(&gammas), h: if rep % 2 == 0 { 0.5 } else { -0.25 }, beta: *g.pick(&betas) });
+        // random graph
+        let n = g.range(3, 6) as usize;
+        let mut e = vec![];
+        for a in 0..n {
+            for b in (a + 1)..n {
+                if g.chance(3, 5) {
+                    let j = *g.pick(&js) * if g.coin() { 1.0 } else { -1.0 };
+                    e.push(((a, b), j));
+                }
+            }
+        }
+        if e.is_empty() || e.iter().map(|((a, b), _)| *a.max(b)).max().unwrap() + 1 != n {
+            e.push(((0, n - 1), 1.0));
+            e.push(((n - 2, n - 1), 1.0));
+        }
+        v.push(Model { name: "random", nvars: n, edges: e, gamma: *g.pick(&gammas), h: *g.pick(&hs), beta: *g.pick(&betas) });
+        // weak transverse field: few constant operators, idle variables occur
+        v.push(Model { name: "weak_gamma", nvars: 4, edges: vec![((0, 1), 1.0), ((1, 2), 1.0), ((2, 3), 1.0), ((0, 3), 1.0), ((0, 2), 0.5)], gamma: 0.125, h: 0.0, beta: *g.pick(&betas) });
+    }
+    v
+}
+
+fn rvb_mode(a: &Args) {
+    let mut gen = SplitMix64::new(a.seed ^ 0x3C03);
+    let mut stats = std::collections::BTreeMap::new();
+    let per_model = if a.thorough { 60 } else { 30 };
+    for (mi, m) in models(&mut gen, a.thorough).into_iter().enumerate() {
+        let rng = Shared(Rc::new(RefCell::new(RecRng::new(a.seed.wrapping_mul(1000).wrapping_add(mi as u64)))));
+        let state: Vec<bool> = (0..m.nvars).map(|_| gen.coin()).collect();
+        let mut g = G::new_with_rng(m.edges.clone(), m.gamma, m.h, 2 * m.nvars, rng.clone(), Some(state));
+        if gen.coin() {
+            g.set_run_rvb(true);
+        }
+        if gen.chance(1, 3) {
+            g.set_enable_heatbath(true);
+        }
+        g.timesteps(20, m.beta);
+        let _ = take_trace();
+        let mut alive = true;
+        for i in 0..per_model {
+            if !alive {
+                break;
+            }
+            if i % 3 == 0 {
+                g.single_diagonal_step(m.beta);
+                if gen.coin() {
+                    g.single_cluster_step();
+                }
+            }
+            alive = observe(&mut g, &rng, &m, &mut stats);
+            // 1..k updates per sweep = the same single updates in sequence (same draws)
+            if alive && i % 5 == 4 {
+                let k = gen.range(2, 4) as usize;
+                let mut gk = g.clone();
+                rng.free();
+                let _ = take_trace();
+                let mut single_traces = vec![];
+                let mut ok = true;
+                for _ in 0..k {
+                    if catch(std::panic::AssertUnwindSafe(|| g.single_rvb_sweep(Some(1)))).is_err() {
+                        ok = false;
+                        break;
+                    }
+                }
+                if !ok {
+                    emit(true, &format!("sweepk {} {}", mi, i), "PANIC", Some(Err("single_rvb_sweep panicked".into())));
+                    alive = false;
+                    continue;
+                }
+                single_traces.extend(take_trace());
+                let log = rng.log();
+                rng.script(&log);
+                let r = catch(std::panic::AssertUnwindSafe(|| gk.single_rvb_sweep(Some(k))));
+                let used = rng.log().len();
+                rng.free();
+                let multi = take_trace();
+                let same = r.is_ok()
+                    && snap(&gk) == snap(&g)
+                    && used == log.len()
+                    && multi.len() == single_traces.len()
+                    && multi.iter().zip(single_traces.iter()).all(|(x, y)| reg_of(x) == reg_of(y) && x.p_to_flip == y.p_to_flip && x.accepted == y.accepted);
+                emit(
+                    multi.iter().any(|t| t.accepted),
+                    &format!("sweepk {} {} {} {}", m.name, mi, i, k),
+                    "same",
+                    Some(if same { Ok(()) } else { Err(format!("single_rvb_sweep(Some({})) differs from {} single updates with the same draws", k, k)) }),
+                );
+            }
+        }
+    }
+    for (k, v) in stats {
+        stat(&k, v);
+    }
+}
+
 fn main() {
     let a = args();
     quiet_panics();
     match a.mode.as_str() {
         "helpers" => helpers_mode(&a),
+        "rvb" => rvb_mode(&a),
         _ => {
             helpers_mode(&a);
+            rvb_mode(&a);
         }
     }
 }
 
-// keep the imports used while the rvb mode is being written
-#[allow(dead_code)]
-fn _unused(_: Rc<RefCell<RecRng>>, r: &mut dyn RngCore) -> u64 {
-    let _ = take_trace();
-    r.next_u64()
-}
